@@ -215,7 +215,7 @@ func writeReplay(eng *Engine, dir, prop string, o *Obligation) (string, bool) {
 		}
 	}
 	confirmed := false
-	if o.Status == "refuted" {
+	if o.Status == "refuted" || o.Status == "undecided" {
 		if txt, ok := tryReplay(eng, o); txt != "" {
 			b.WriteString("\nreplay against the real code:\n" + txt + "\n")
 			confirmed = ok
